@@ -358,6 +358,20 @@ theorem cbs_gauss_scale_invariant (x : ℕ → ℝ) (a : ℝ) (ha : 0 < a) (m n 
     gaussOptim_scale _ _ _ a ha hp.1 hp.2]
   ring
 
+/-- **C12, scale, detector level (circular binary segmentation, multivariate Gaussian cost)**: the local anomaly
+    score from the rows (`gcovLocal`: whole candidate minus inner interval minus the pooled surroundings) is
+    unchanged by rescaling on every cut the detector reads, hence so are its table and anomalies — provided
+    the three sample covariances of each such cut are non-singular (otherwise the code raises) -/
+theorem cbs_gcov_scale_invariant {p : ℕ} (x : ℕ → Fin p → ℝ) (a : ℝ) (ha : 0 < a) (m n : ℕ) (thr : ℝ)
+    (ivs : List (ℕ × ℕ)) (hivs : ∀ iv ∈ ivs, iv.2 ≤ n)
+    (hdet : ∀ s i j e, s < i → i + m ≤ j → j < e → m ≤ (e - j) + (i - s) → e ≤ n →
+      0 < (covMat x s e).det ∧ 0 < (covMat x i j).det ∧ 0 < (covMatOn x (surround s i j e)).det) :
+    runCbs (gcovLocal (fun t c => a * x t c)) m thr ivs = runCbs (gcovLocal x) m thr ivs := by
+  apply runCbs_congr_read _ _ m n thr ivs hivs
+  intro s i j e h1 h2 h3 h4 h5
+  obtain ⟨d0, d1, d2⟩ := hdet s i j e h1 h2 h3 h4 h5
+  exact gcovLocal_scale x a ha s i j e h1.le (by omega) h3.le d0 d1 d2
+
 /-! ### time reversal -/
 
 /-- **C12, reversal**: the rows `[s, e)` of the reversed series are the rows `[N - e, N - s)` of the
